@@ -17,7 +17,8 @@ EXPLANATION = ("The full matrix solver-configuration x datafit x penalty x {dens
 ASSUMPTIONS = ["exact reals; X = corr32 (3x2), hyper-parameters from a catalogue, targets symbolic; budgets (1,1)",
                "scipy.optimize.minimize (LBFGS) replaced by a zero-iteration contract stub; random power-method start fixed",
                "numba typing failures and interpreter crashes are facts about compiled code and are outside (Python semantics only)"]
-BOUNDS = dict(quick="all refused cells + a deterministic 1/12 sample of the accepted cells", thorough="all cells")
+BOUNDS = dict(quick="validation of ALL cells; the solve of a deterministic 1/12 sample of the accepted cells (1/48 for irrational-step "
+                    "compositions), <= 40 paths / 15 s per cell", thorough="validation of all cells; solve of a 1/3 sample, <= 300 paths / 45 s per cell")
 
 EXPLAINED = re.compile(r"Missing|must implement|is not compatible|not block-separable|must be compatible|not yet supported|"
                        r"supports only|should only take positive|has no attribute|Unsupported|should be of size|should be n_features")
@@ -184,6 +185,10 @@ def u_cell(h, solver, skw, datafit, penalty, sparse, sym_y=True, run_solve=True)
             msg = str(e)
             if isinstance(e, ValueError) and ('broadcast' in msg or 'shape' in msg or 'dimension' in msg):
                 raise
+            if isinstance(e, ValueError) and 'SmallResidualException' in msg and type(df).__name__ == 'SqrtQuadratic':
+                # documented data-dependent refusal of the square-root loss at a (near-)perfect fit, not a composition refusal
+                h.ensure('documented-small-residual-refusal', True)
+                return
             h.ensure('refusal-is-explained', bool(EXPLAINED.search(msg)), info=msg[:160])
             return
     finally:
@@ -216,14 +221,30 @@ def units(tier):
     us = []
     for solver, skw, df, pen, sparse in all_cells():
         cid = '%s[%s],%s,%s,%s' % (solver, ','.join('%s=%s' % kv for kv in sorted(skw.items())), df, pen, 'csc' if sparse else 'dense')
-        run_solve = (dh(cid) % 12 == 0) if tier == 'quick' else True
+        run_solve = (dh(cid) % 12 == 0) if tier == 'quick' else (dh(cid) % 12 in (0, 1, 2, 3))
         if tier == 'quick' and (solver in ('FISTA', 'PDCD_WS') or pen in ('SCAD', 'LogSumPenalty', 'L0_5', 'L2_3', 'L2_05')):
             run_solve = run_solve and (dh(cid) % 48 == 0)       # irrational step sizes / roots: few symbolic runs in quick
         us.append(Unit('C13/D/cell[%s]' % cid, u_cell, dict(solver=solver, skw=skw, datafit=df, penalty=pen, sparse=sparse,
                                                             sym_y=True, run_solve=run_solve),
-                       wall_s=15 if tier == 'quick' else 90, max_paths=40 if tier == 'quick' else 1500, timeout_ms=3000,
+                       wall_s=15 if tier == 'quick' else 45, max_paths=40 if tier == 'quick' else 300, timeout_ms=3000,
                        patched=True))
     return us
 
 
-MANIFEST = dict(claimed=False, reason="under construction")
+MANIFEST = dict(
+    claimed=True,
+    level_text=("Bounded symbolic model checking over the exhaustively enumerated composition matrix (23 solver configurations "
+                "x 13 datafits x 19 penalties x {dense, CSC}, ~12k cells): for EVERY cell the real BaseSolver validation runs "
+                "on the initialised datafit; a refusal must be an AttributeError / ValueError whose message names the missing "
+                "method or structure (a refusal path takes no data-dependent branch, so it holds for all data). For a "
+                "deterministic sample of the accepted cells the real solve() is executed under minimal budgets with symbolic "
+                "targets: on every explored feasible path it returns finite coefficients / history and raises nothing else "
+                "(IndexError, TypeError, broadcasting ValueError, ZeroDivisionError, UnboundLocalError ... are violations)."),
+    level_note=("Python semantics of the njit sources only: numba TYPING failures, segfaults and interpreter exits are facts about "
+                "compiled code and cannot be decided by this technique (they show up only if a counterexample is replayed on the "
+                "jitted build). Accepted cells outside the sample are validated but not run here (their runs are in C01/C19/C20 "
+                "for the supported compositions). X = corr32, catalogue hyper-parameters; path budget per cell: exhausted budgets "
+                "are reported as INCONCLUSIVE. The documented data-dependent SmallResidualException of SqrtQuadratic is a legal "
+                "outcome. Known finding F24 (AndersonCD accepts QuadraticGroup and over-reads the per-group Lipschitz array). "
+                "Fixed through this check: F30."),
+)
